@@ -58,7 +58,7 @@ _KINDS = ["linear", "binary", "mctdh2", "mctdh3", "mctdh2-contract", "mctdh3-con
           "t3ns", "random"]
 _REQUIRED = (["kind:" + k for k in _KINDS]
              + ["multi-set-node", "dummy-root", "dummy-internal", "dummy-leaf", "arity-2", "arity-3", "unary-node",
-                "qn-none", "qn-one", "qn-two", "complex-state", "complex-with-real", "add:coeffs-differ", "bond-dim-1",
+                "qn-none", "qn-one", "qn-two", "complex-state", "complex-with-real", "add:coeffs-differ", "bond-dim-1", "gauge:non-canonical", "gauge:non-canonical-on-dimension-one-bonds",
                 "partial-operator", "charged-operator", "child-permutation", "post:canonicalised", "from_mps",
                 "aux-space-partial-operator", "one-node-tree", "op:add", "op:scale", "op:apply", "op:canonicalise", "op:compress",
                 "op:centre-walk", "op:norm", "op:expectation", "expectation1", "op:rdm-site", "op:rdm-dof", "op:entropy", "op:mutual-info",
@@ -466,6 +466,22 @@ def new_state(ctx, world, qntot):
         ctx.lib(t.canonicalise, what="canonicalise")
         ctx.lib(t.compress, what="compress")
         tr.append("compress")
+    elif g == 3 and world.n_nodes > 1:
+        # a non-canonical gauge: G G^-1 on one to three edges (scalars on edges of dimension one) - the environments of the
+        # sub-trees are then no unit matrices
+        cplx = bool(rng.random() < 0.4)
+        before = world.dense(t)
+        for _ in range(int(rng.integers(1, 4))):
+            ts.edge_gauge(rng, t, cplx=cplx)
+        if not ctx.close(world.dense(t), before, 1e-10, "harness|edge-gauge-changed-the-state", scale=max(float(np.linalg.norm(before)), 1e-300)):
+            from rv.case import CaseAbort
+            raise CaseAbort()
+        tr.append("edge-gauge" + ("(complex)" if cplx else ""))
+        ctx.cls("gauge:non-canonical")
+        if max(t.bond_dims) == 1:
+            ctx.cls("gauge:non-canonical-on-dimension-one-bonds")
+        if cplx:
+            ctx.cls("complex-state")
     c = [1, 2.0, -0.5, 0.3, np.exp(0.7j), 1][int(rng.integers(0, 6))]
     if not (isinstance(c, int) and c == 1):
         t.coeff = c
